@@ -13,6 +13,7 @@ from ..dsl import (
     Variable,
     Zero,
     _variable_sort_key,
+    _variable_total_key,
     ensure_ordering,
 )
 
@@ -68,8 +69,11 @@ class Canonicalizer:
     def _canonicalize_variable(self, variable: Variable) -> Variable:
         return variable
 
-    def _sorted_key(self, variable: Variable) -> int:
-        return self.ordering_level[variable.name]
+    def _sorted_key(self, variable: Variable) -> tuple[int, tuple[str, str, str]]:
+        # variables sharing a name (e.g., counterfactual copies of one variable) are
+        # told apart by their value mark and interventions, so the result does not
+        # depend on the order in which they were given
+        return self.ordering_level[variable.name], _variable_total_key(variable)
 
     def canonicalize(self, expression: Expression) -> Expression:
         """Canonicalize an expression.
